@@ -332,7 +332,7 @@ func (w *Worker) step(f *frame, in ssa.Instruction, work *[]*frame) *PanicV {
 				} else {
 					if !c.isConst() && c.hi >= 0x80 {
 						if !w.decide(f, mkLt(c, mkInt(0x80)), work) {
-							unsupported("range over string with non-ASCII symbolic byte")
+							return &PanicV{runtime: "CUT: UTF-8 decoding of a symbolic non-ASCII byte (range over string)", site: w.pos(x.Pos(), f)}
 						}
 					}
 					f.set(x, TupleV{tTrue, mkInt(int64(it.pos)), c})
